@@ -5,6 +5,7 @@ import (
 	"fmt"
 	"math/big"
 	"strconv"
+	"strings"
 
 	"github.com/Oneledger/protocol/action"
 	aolvm "github.com/Oneledger/protocol/action/olvm"
@@ -34,11 +35,21 @@ var olvmRuntime = map[string]string{
 	"suicide": "600035ff",
 	// slot0 := (slot0 == 0): every other call clears the slot and earns a storage refund
 	"toggle": "6000541560005500",
+	// helper of "nest": pays 1 to the unused address 0x..dead (an account comes into being), reads BALANCE of the two
+	// addresses in calldata[0:64] (first touch of both in the transaction) and reverts - nothing of it may remain
+	"inner": "6000600060006000600161dead5af150" + "600035315060203531506000" + "6000fd",
+	// calls the program at calldata[64:96] with its own value and calldata[0:64] (that call fails), then forwards the
+	// value to the address in calldata[0:32], like "forward"
+	"nest": "3660006000376000600060406000346040355af150" + "600060006000600034600035" + "5a" + "f1" + "00",
 }
 
 // initCode wraps runtime code (at most 32 bytes) into creation code returning it.
 func initCode(runtime []byte) []byte {
 	n := len(runtime)
+	if n > 32 && n < 256 {
+		// PUSH1 n DUP1 PUSH1 11 PUSH1 0 CODECOPY PUSH1 0 RETURN, then the runtime code
+		return append([]byte{0x60, byte(n), 0x80, 0x60, 0x0b, 0x60, 0x00, 0x39, 0x60, 0x00, 0xf3}, runtime...)
+	}
 	if n == 0 || n > 32 {
 		panic("runtime length")
 	}
@@ -66,6 +77,12 @@ func (g *Genesis) OlvmData(spec string) []byte {
 		return initCode(b)
 	case len(spec) > 4 && spec[:4] == "arg:":
 		return ethcmn.LeftPadBytes(g.addr(spec[4:]), 32)
+	case len(spec) > 5 && spec[:5] == "nest:": // nest:<target>|<third>|<inner>: three address words
+		var out []byte
+		for _, nm := range strings.Split(spec[5:], "|") {
+			out = append(out, ethcmn.LeftPadBytes(g.addr(nm), 32)...)
+		}
+		return out
 	case len(spec) > 4 && spec[:4] == "hex:":
 		b, err := hex.DecodeString(spec[4:])
 		must(err)
